@@ -476,15 +476,9 @@ theorem C20_credentials_per_host (cfg : AuthCfg) (host : Nat) (fs : List SFrame)
 
 /-! ## "only after TLS verification as configured" -/
 
-/-- the derived config has a RootCAs pool exactly when the caller supplied the CA (CaPath or own RootCAs) -/
-theorem setup_hasRootCAs (o : SslOpts) (c : OutCfg) (h : setupTLSConfig o = .ok c) : c.hasRootCAs = Spec.hasCA o := by
-  obtain ⟨cfg, ehv, ca, cert, key⟩ := o
-  rcases cfg with _ | ⟨i, sn, r, n⟩ <;> cases ehv <;> (try cases i) <;> cases ca <;> cases cert <;> cases key <;>
-    simp [setupTLSConfig, keyPairLoads] at h <;> subst h <;> simp [Spec.hasCA]
-
 /-- End to end, for every SslOptions (that yield a config), host name, port, server certificate, authenticator and
     server frame sequence: the TLS handshake is accepted exactly when the documented table says "do not verify" or
-    the certificate chains to the configured CA and is valid for the expected name (the caller's ServerName, else the
+    the certificate is signed by a CA the client was given (CaPath file, own RootCAs) and is valid for the expected name (the caller's ServerName, else the
     host being dialled); when it is not accepted NOTHING is sent on the connection (no OPTIONS, no credentials) and
     the dial fails; hence an AUTH_RESPONSE leaves the client only after verification as configured.
     (crypto/tls itself is assumed: `tlsAccepts`.) -/
@@ -503,7 +497,6 @@ theorem C20_credentials_only_after_verification (o : SslOpts) (hostname port : L
     | ok c =>
       rw [hs] at h
       obtain ⟨h1, h2, h3⟩ := C20_setup_follows_table o c hs
-      have hroots : c.hasRootCAs = Spec.hasCA o := setup_hasRootCAs o c hs
       have hmv : Spec.mustVerify o = !c.insecure := by simp [Spec.mustVerify, h1]
       have hname : c.insecure = false →
           (tlsConfigForAddr c.insecure c.serverName (joinHostPort hostname port)).1 = Spec.expectedName o hostname := by
@@ -514,9 +507,9 @@ theorem C20_credentials_only_after_verification (o : SslOpts) (hostname port : L
           simp [C20_server_name_of_host hostname port hp]
         · rw [(C20_server_name c.insecure c.serverName _).2 (Or.inr he)]
           simp [he]
-      have hacc : tlsAccepts c.insecure c.hasRootCAs
+      have hacc : tlsAccepts c.insecure (rootsTrust o cert.signer)
           (tlsConfigForAddr c.insecure c.serverName (joinHostPort hostname port)).1 cert = Spec.mayProceed o hostname cert := by
-        simp only [tlsAccepts, Spec.mayProceed, hmv, hroots, Bool.not_not]
+        simp only [tlsAccepts, Spec.mayProceed, hmv, Bool.not_not]
         cases hi : c.insecure
         · have := hname hi
           rw [hi] at this
@@ -539,11 +532,11 @@ theorem C20_credentials_only_after_verification (o : SslOpts) (hostname port : L
 /-- non-vacuity: host verification on, CA given; the node presents a certificate for another name → rejected, nothing
     sent; the right certificate → the password token goes out -/
 example : (dialTLS ⟨none, true, .valid, .absent, .absent⟩ (strBytes "node-b") (strBytes "9042")
-    ⟨[strBytes "node-a"], true⟩ (some (.pw ⟨[117], [112], []⟩))
+    ⟨[strBytes "node-a"], .fileCA⟩ (some (.pw ⟨[117], [112], []⟩))
     [.supported, .authenticate (strBytes "org.apache.cassandra.auth.PasswordAuthenticator"), .authSuccess []]).toOption =
     some ⟨strBytes "node-b", false, .stop .errTlsVerify⟩ := by decide
 example : (dialTLS ⟨none, true, .valid, .absent, .absent⟩ (strBytes "node-b") (strBytes "9042")
-    ⟨[strBytes "node-b"], true⟩ (some (.pw ⟨[117], [112], []⟩))
+    ⟨[strBytes "node-b"], .fileCA⟩ (some (.pw ⟨[117], [112], []⟩))
     [.supported, .authenticate (strBytes "org.apache.cassandra.auth.PasswordAuthenticator"), .authSuccess []]).toOption.map
       (·.trace.sent) = some [.options, .startup, .authResponse [0, 117, 0, 112]] := by decide
 
